@@ -724,7 +724,19 @@ def external(fr, dotted, args, kw, extra, n):
             return op(args[0], args[1])
         if name in ('greater', 'greater_equal', 'less', 'less_equal', 'equal', 'not_equal') and len(args) == 2:
             op = {'greater': 'Gt', 'greater_equal': 'GtE', 'less': 'Lt', 'less_equal': 'LtE', 'equal': 'Eq', 'not_equal': 'NotEq'}[name]
+            da, db = (x[1] if x[0] == 'nd' else x for x in args)
+            if da[0] in ('list', 'tuple') and db[0] in ('list', 'tuple') and not kw \
+                    and all(T.scalar_value(e) for e in da[1] + db[1]) and (len(da[1]) == len(db[1]) or 1 in (len(da[1]), len(db[1]))):
+                # two explicit sequences of numbers: numpy compares element by element and *broadcasts* a length-1 operand
+                # (a length mismatch it can broadcast is not a mismatch for it)
+                la, lb = len(da[1]), len(db[1])
+                return ('nd', ('list', tuple(T.cmp_(op, da[1][i if la > 1 else 0], db[1][i if lb > 1 else 0]) for i in range(max(la, lb)))))
             return T.cmp_(op, args[0], args[1])
+        if name in ('any', 'all') and len(args) == 1 and not kw:
+            d0 = a0[1] if a0[0] == 'nd' else a0
+            if d0[0] in ('list', 'tuple') and all(T.scalar_value(e) or T.isconst(e) or e[0] in ('cmp', 'and', 'or', 'not') for e in d0[1]):
+                ts = [fr.fold(x) for x in d0[1]]
+                return T.or_(ts) if name == 'any' else T.and_(ts)
         if name == 'repeat' and len(args) == 2 and not kw and T.isconst(args[1]) and isinstance(args[1][1], int) and 0 < args[1][1] <= 8:
             src = T.strip_nd(a0)
             if src[0] == 'call' and src[1] == 'astype' and src[2] and T.strip_nd(src[2][0])[0] == 'map':
